@@ -9,6 +9,16 @@ CLAIMED = {
         note="Trusted: rustc type checker / MIR construction (nightly), over-approximate value flow (extern calls propagate all args), Channel implementations deliver only to the addressee. Does not decide inference from preprocessing traffic.",
         ref="DESIGN.md §3 R5, §4 C05"),
 }
+CLAIMED["C18"] = dict(
+    technique="CFG dominance of validate(ctx)? over all engine calls + range-check recognition with fail-closed edge analysis in validate (rustc MIR)",
+    text="For every argument value at once: the successful `validate(ctx)?` dominates every engine call of _mpc (no traffic, RNG draw or temp file before it), mpc() only builds the Context, and inside validate each caller-supplied index (p_own, p_eval, every p_out element), the input length, emptiness and duplicates of p_out and circuit.validate() reach a test whose rejecting edge can only construct Err. Structural necessary conditions; circuit-shape panics are handled by the C08/C18 index rules.",
+    note="Trusted: rustc MIR, garble_lang::Circuit::validate as the circuit validator. 'fail-closed' = no Ok(..) construction reachable from the rejecting edge.",
+    ref="DESIGN.md §4 C18")
+CLAIMED["C19"] = dict(
+    technique="who-may-call (file-creating APIs), must-precede by dominance (flush -> rewind -> reader), Drop/sibling agreement, codec agreement, forward value-flow slice of Context.tmp_dir (rustc MIR)",
+    text="Necessary structural conditions of file/memory equivalence that hold for all operation histories because they are facts of every CFG path: only anonymous temp files are created; flush()? and rewind()? dominate every reader; both iterators restore the shared offset to End(0) on drop; TrackWrite::flush forwards; every method handles both variants and both iterators treat EOF alike; writer and readers share one bincode config; tmp_dir reaches nothing but FileOrMemBuf::new; writer flush bound and chunks(..) argument come from the same Context method with the `>=` idiom. Does not decide item-sequence equality itself.",
+    note="Trusted: tempfile_in is anonymous; std BufReader/BufWriter/Seek semantics.",
+    ref="DESIGN.md §4 C19")
 NA = {}
 
 def main():
